@@ -221,6 +221,8 @@ pub struct Delta {
     /// (conn, index into conn.inbound)
     pub new_inbound: Vec<(usize, usize)>,
     pub connack_accepted: bool,
+    /// the accepted CONNACK could not be decoded by the reference decoder
+    pub connack_opaque: bool,
     pub emitted_decode_error: Option<String>,
 }
 
@@ -396,7 +398,16 @@ impl World {
                                 }
                             }
                         } else {
-                            self.harness_errors.push(format!("step {}: state became Connected without a decodable CONNACK in the delivered bytes", step.index));
+                            // the engine accepted a CONNACK the strict reference decoder could not frame
+                            // (only possible with a hostile / mutated stream): the connection is known
+                            // to be established but its announced capabilities are not
+                            let conn = &mut self.conns[c];
+                            conn.connack_step = Some(step.index);
+                            conn.connack_time = Some(step.time_ms);
+                            self.successful_connections += 1;
+                            delta.connack_accepted = true;
+                            delta.connack_opaque = true;
+                            for op in self.ops.iter_mut() { if !op.resolved() { op.restart_conn = Some(c); op.pubrec_received = false; } }
                         }
                     }
                     // ack deliveries
